@@ -131,6 +131,21 @@ let puml_mode () =
         (int_of_nat (count_transitions s))
     done with End_of_file -> ())
 
+let stt_mode () =
+  (* one input line = one whole description (line ends written as \x1e); output: the rows parse_stt<0..5> select *)
+  (try while true do
+      let line = input_line stdin in
+      let s = List.map (fun n -> if int_of_nat n = 0x1e then nat_of_int 10 else n) (str_of_string line) in
+      let rec nat_of k = if k = 0 then O else S (nat_of (k - 1)) in
+      for k = 0 to 5 do
+        let t = parse_stt (nat_of k) s in
+        Printf.printf "STT%d\x1f%s\x1f%s\x1f%s\x1f%s\x1f%s\x1f" k
+          (string_of_str t.t_source) (string_of_str t.t_target) (string_of_str t.t_event)
+          (string_of_str t.t_guard) (string_of_str t.t_action)
+      done;
+      print_string "\n"
+    done with End_of_file -> ())
+
 let guard_mode () =
   (* one input line = one PlantUML transition line; output: the guard tree the library builds for it *)
   (try while true do
@@ -223,6 +238,7 @@ let store_mode () =
 
 let () =
   if Sys.argv.(1) = "puml" then (puml_mode (); exit 0);
+  if Sys.argv.(1) = "stt" then (stt_mode (); exit 0);
   if Sys.argv.(1) = "guard" then (guard_mode (); exit 0);
   if Sys.argv.(1) = "store" then (store_mode (); exit 0);
   if Sys.argv.(1) = "fe" then (fe_mode (); exit 0);
